@@ -1,7 +1,55 @@
 #!/bin/sh
-# Assembles the dashmap shim: the registry's dashmap-5.5.3 with src/lock.rs replaced (see dashmap_lock.rs).
+# Assembles the shims of the scheduler workspace:
+#  - ascent-byods-rels: /repo's current sources with std::sync::{Mutex,RwLock} replaced by ascent::verif::{Mutex,RwLock}
+#    (every lock acquisition of the crate becomes a scheduling point, whatever the source looks like); refreshed on every call
+#  - dashmap: the registry's dashmap-5.5.3 with src/lock.rs replaced (see dashmap_lock.rs)
 set -e
 here="$(cd "$(dirname "$0")" && pwd)"
+python3 - "$here/../../build/shims/ascent-byods-rels" <<'PY'
+import os, re, sys
+src = "/repo/byods/ascent-byods-rels"
+out = sys.argv[1]
+def put(path, content):
+    os.makedirs(os.path.dirname(path), exist_ok=True)
+    if os.path.exists(path) and open(path).read() == content:
+        return
+    open(path, "w").write(content)
+def hook_locks(txt):
+    # `use std::sync::{A, Mutex, B};` -> the hooked types are imported separately
+    def braces(m):
+        names = [n.strip() for n in m.group(1).split(",") if n.strip()]
+        hooked = [n for n in names if n in ("Mutex", "RwLock")]
+        rest = [n for n in names if n not in ("Mutex", "RwLock")]
+        out = ""
+        if rest:
+            out += "use std::sync::{%s};" % ", ".join(rest)
+        for h in hooked:
+            out += " use ascent::verif::%s;" % h
+        return out.strip()
+    txt = re.sub(r"use std::sync::\{([^}]*)\};", braces, txt)
+    txt = re.sub(r"\bstd::sync::(Mutex|RwLock)\b", r"ascent::verif::\1", txt)
+    return txt
+keep = set()
+for root, dirs, files in os.walk(os.path.join(src, "src")):
+    for f in files:
+        p = os.path.join(root, f)
+        rel = os.path.relpath(p, src)
+        keep.add(rel)
+        txt = open(p).read()
+        put(os.path.join(out, rel), hook_locks(txt) if f.endswith(".rs") else txt)
+toml = open(os.path.join(src, "Cargo.toml")).read()
+toml = toml.replace("version.workspace = true", 'version = "0.0.0"')
+toml = toml.replace('ascent = { workspace = true, default-features = false }', 'ascent = { path = "/repo/ascent", default-features = false, features = ["verif-hooks"] }')
+toml = re.sub(r'readme = "[^"]*"\n', "", toml)
+toml = re.sub(r"\n\[dev-dependencies\][^\[]*", "\n", toml)
+put(os.path.join(out, "Cargo.toml"), toml)
+# files that disappeared from /repo
+for root, dirs, files in os.walk(os.path.join(out, "src")):
+    for f in files:
+        rel = os.path.relpath(os.path.join(root, f), out)
+        if rel not in keep:
+            os.remove(os.path.join(root, f))
+PY
 out="$here/../../build/shims/dashmap"
 src="$(ls -d "$HOME"/.cargo/registry/src/*/dashmap-5.5.3 | head -1)"
 [ -d "$src" ] || { echo "dashmap-5.5.3 not found in the cargo registry" >&2; exit 2; }
